@@ -13,7 +13,7 @@ RULE = ("case: strategy in {dimension-wise (versions 6/2/3/7/8, rebalancing, bou
         "(final limits: max_evaluations=K2 and either no tolerance or an error value observed in the tol=-1 history) is recorded; then EVERY evaluation index k of that run (all of them in the thorough tier and whenever "
         "the history has <= 8 evaluations, otherwise a drawn subset of 8) is used as interruption point: a fresh run with "
         "max_evaluations = n_k - 1 (or with the weaker tolerance err_k) stops there and is continued to K2 in a drawn mode: continue directly / save_to_file -> "
-        "restore_from_file -> continue the restored object / save, then continue BOTH the original and the restored object; optionally a continuation whose limits are already met is issued in between. Oracle: final "
+        "restore_from_file -> continue the restored object / save, then continue BOTH the original and the restored object; dimension-wise objects are in a share of the interruptions READ (interpolant, result, points and weights) between stop and continuation; optionally a continuation whose limits are already met is issued in between. Oracle: final "
         "refinement structure, scheme, lmax, combined result (1e-12 rel) and last point count equal the uninterrupted run's; a restored "
         "object answers __call__ and the point/weight getters bit-identically to the saved one. Non-trivial = an interruption at k>=1 "
         "followed by at least one further refinement. Distinct = distinct (case, interruption index).")
@@ -286,6 +286,12 @@ def run(case):
                 if snapshot(obj, kind) != before_noop or int(rn[6][-1]) != n_at_stop:
                     out.bad(sub + "/continuation-with-met-limits-refined", "%s: %d -> %d points" % (tag, n_at_stop, int(rn[6][-1])))
                 out.cls("no-op-continuation-in-between")
+            if kind == "dw" and case.get("read", [False])[j % len(case.get("read", [False]))]:
+                # between the stop and the continuation the user READS the stopped object (interpolant at some points, result,
+                # point count, points and weights); for the dimension-wise strategy that leaves the object unchanged on the
+                # unchanged tree (extend-split interpolation evaluates the integrand at further points, see DESIGN 6.3)
+                observable(obj, pts)
+                out.cls("object-read-between-stop-and-continuation")
             r2 = cont(obj, K2, tol_final)
             snap2 = snapshot(obj, kind)
             res2 = np.asarray(r2[3], dtype=float)
@@ -334,7 +340,8 @@ def _strategy(kind):
                      legs=draw(st.lists(st.sampled_from(["max", "max", "tol"]), min_size=1, max_size=3)),
                      noop=draw(st.lists(st.booleans(), min_size=1, max_size=3)),
                      fscale=draw(st.sampled_from([1.0, 1.0, 1.0, 1e-12, 1e-10, 1e-6, 1e3, 1e8, -1e-11])),
-                     notol=draw(st.sampled_from([-1, 0, 0.0])))
+                     notol=draw(st.sampled_from([-1, 0, 0.0])),
+                     read=draw(st.lists(st.booleans(), min_size=1, max_size=4)))
             if kind == "dw":
                 c.update(lmin=1, lmax=2, version=draw(st.sampled_from([6, 6, 2, 3, 7, 8])), rebalancing=draw(st.booleans()),
                          boundary=draw(st.booleans()), maxev=draw(st.integers(30, 250 if dim == 2 else 200)),
